@@ -512,14 +512,18 @@ def c_forced(op):
 C2S_OPS = NUM1 + NUM2 + ["cpow", "if_else", "if_else_zero", "lt", "le", "eq", "ne", "and", "or", "not"]
 
 
-def to_casadi(t, table, nodes=None):
-    r = _to_casadi(t, table, nodes)
+def to_casadi(t, table, nodes=None, perts=None):
+    r = _to_casadi(t, table, nodes, perts)
     if nodes is not None:
         nodes.append(r)
+    if perts is not None and t[0] not in ("sym", "const"):
+        d = ca.SX.sym("d%d" % len(perts))  # relative rounding error of this node
+        perts.append(d)
+        r = r * (1 + d)
     return r
 
 
-def _to_casadi(t, table, nodes=None):
+def _to_casadi(t, table, nodes=None, perts=None):
     k = t[0]
     if k == "sym":
         if t[1] not in table:
@@ -527,7 +531,7 @@ def _to_casadi(t, table, nodes=None):
         return table[t[1]]
     if k == "const":
         return ca.SX(t[1])
-    a = [to_casadi(c, table, nodes) for c in t[1:] if isinstance(c, list)]
+    a = [to_casadi(c, table, nodes, perts) for c in t[1:] if isinstance(c, list)]
     u = {"neg": lambda x: -x, "exp": ca.exp, "log": ca.log, "sqrt": ca.sqrt, "sq": lambda x: x * x, "twice": lambda x: 2 * x,
          "inv": lambda x: 1 / x, "sin": ca.sin, "cos": ca.cos, "tan": ca.tan, "asin": ca.asin, "acos": ca.acos, "atan": ca.atan,
          "floor": ca.floor, "ceil": ca.ceil, "fabs": ca.fabs, "sign": ca.sign, "erf": ca.erf, "sinh": ca.sinh, "cosh": ca.cosh,
@@ -568,16 +572,20 @@ def c2s_case(draw, kind="num", op=None):
 
 
 def sympy_eval(e, syms, point):
-    subs = {s_: sympy.Float(point[str(n)], 30) for n, s_ in syms.items() for _ in [0]}
+    subs = {s_: sympy.Float(point[str(n)], 40) for n, s_ in syms.items() for _ in [0]}
     if isinstance(e, (bool, int, float)):
         return e
+    if hasattr(e, "atoms"):
+        # constants arrive as 15-digit Floats holding exact doubles: extend their precision (same binary value) so that
+        # Mod / floor of large quotients are evaluated exactly, as C's fmod / remainder are
+        e = e.xreplace({f: sympy.Float(f, 40) for f in e.atoms(sympy.Float)})
     v = e.subs(subs) if hasattr(e, "subs") else e
     if v in (sympy.true, sympy.false) or isinstance(v, bool):
         return bool(v)
     if hasattr(v, "is_Relational") and v.is_Relational:
         v = v.simplify()
         return bool(v)
-    v = sympy.N(v, 30)
+    v = sympy.N(v, 40)
     if v in (sympy.true, sympy.false):
         return bool(v)
     return v
@@ -601,6 +609,20 @@ def check_c2s(case):
     allv = np.array(Fn.call([ca.DM(case["point"][n]) for n in names])[0], float)
     require(bool(np.all(np.isfinite(allv))) and float(np.max(np.abs(allv))) < 1e12)  # point inside every sub-expression's domain
     floor = 1e-13 * (1.0 + float(np.max(np.abs(allv))))  # round-off of the double evaluation, relative to the largest intermediate
+    # first-order rounding-error analysis of the *source* double evaluation: every node carries a relative error d_i of one
+    # ulp; sum_i |dy/dd_i| * 2^-52 bounds what CasADi's own arithmetic can be off by (tan next to pi/2, cancellations, ...)
+    roundoff = None
+    if t[0] != "mat":
+        try:
+            tb2, perts = dict(table), []
+            yp = ca.SX(to_casadi(t, tb2, None, perts))
+            if perts:
+                dv = ca.vertcat(*perts)
+                Jf = ca.Function("Jf", [tb2[n] for n in names] + [dv], [ca.densify(ca.jacobian(yp, dv))])
+                Jv = np.array(Jf.call([ca.DM(case["point"][n]) for n in names] + [ca.DM.zeros(len(perts))])[0], float)
+                roundoff = float(np.sum(np.abs(Jv))) * 2.0**-52 if np.all(np.isfinite(Jv)) else float("inf")
+        except Exception:
+            roundoff = None
     call = lambda vals: np.array(F.call([ca.DM(v) for v in vals])[0], float)
     got = call([case["point"][n] for n in names])
     syms = {}
@@ -641,6 +663,19 @@ def check_c2s(case):
             if vv is None:
                 continue
         if abs(vv - g) > 1e-9 * abs(g) + floor:
+            if roundoff is not None and roundoff > 0.1 * (1e-9 * abs(g) + floor):
+                continue  # the source evaluation itself is not accurate to the tolerance at this point
+            # the converted expression evaluated in plain double precision (lambdify -> math): if that reproduces CasADi's
+            # double result, the high-precision difference comes from rounding of intermediates (tan near pi/2, fmod with a
+            # quotient next to an integer, ...), not from the conversion
+            try:
+                keys_ = sorted(smap)
+                vd = sympy.lambdify([smap[k] for k in keys_], e, modules="math")(*[float(case["point"][k]) for k in keys_])
+                vd = (1.0 if vd else 0.0) if isinstance(vd, (bool, np.bool_)) else float(vd)
+                if math.isfinite(vd) and abs(vd - g) <= 1e-12 * abs(g) + 1e-300:
+                    continue
+            except Exception:
+                pass
             # discount ill-conditioned points (value jumps under a 1e-12 perturbation of the inputs)
             pert = call([case["point"][n] * (1 + 1e-12) + 1e-13 for n in names])[i, j]
             pert2 = call([case["point"][n] * (1 - 1e-12) - 1e-13 for n in names])[i, j]
